@@ -20,7 +20,7 @@ ID = 'C05'
 LEVEL = 'exploration'
 RULE = ('Valid programs from the typed generator G (plus three helper '
         'declarations: a record type, a SUB and a FUNCTION) x a catalogue of '
-        '93 rule violations (type mismatch in assignment / operator / '
+        '95 rule violations (type mismatch in assignment / operator / '
         'condition / argument / CASE / FOR bound, undefined and duplicate '
         'label, duplicate definition, argument count, array rank, undefined '
         'type / field / procedure, misplaced EXIT / ELSE / ELSEIF / CASE / '
@@ -193,6 +193,14 @@ CATALOGUE = [
       'WRONG_NUMBER_OF_DIMENSIONS', at=1),
     F('array_rank_read', ['DIM zzqn2(3, 3) AS INTEGER', 'zzqo% = zzqn2(1)'],
       'WRONG_NUMBER_OF_DIMENSIONS', at=1),
+    F('array_rank_dynamic_array', ['zzqdn% = 3',
+                                   'DIM zzqdy(zzqdn%) AS INTEGER',
+                                   'zzqdy(1, 2) = 5'],
+      'WRONG_NUMBER_OF_DIMENSIONS', at=2),
+    F('array_rank_dynamic_array_read', ['zzqdm% = 3',
+                                        'DIM zzqdz(1 TO zzqdm%, 2) AS LONG',
+                                        'zzqdo& = zzqdz(1)'],
+      'WRONG_NUMBER_OF_DIMENSIONS', at=2),
     F('undefined_type', ['DIM zzqp AS zzqnotype'], 'TYPE_NOT_DEFINED'),
     F('undefined_type_array', ['DIM zzqp2(2) AS zzqnotype'],
       'TYPE_NOT_DEFINED'),
